@@ -18,7 +18,8 @@ func shareMenu() []menuItem {
 		tag string
 		s   world.Shape
 	}
-	pend := []sh{{"f3", shF3}, {"f5", shF5}, {"f7", shF7}, {"m10", shM10}, {"m30", shM30}, {"mf2", shMF2}, {"g1", shG1}, {"g2", shG2}}
+	// m80: gpu-memory of exactly TWICE a device's memory (no device can hold it)
+	pend := []sh{{"f3", shF3}, {"f5", shF5}, {"f7", shF7}, {"m10", shM10}, {"m30", shM30}, {"mf2", shMF2}, {"g1", shG1}, {"g2", shG2}, {"m80", world.Shape{CPUm: 500, GPUMem: "80000"}}}
 	for _, s := range pend {
 		m = append(m, menuItem{tag: "pend-" + s.tag, queue: "qa", pc: "p50", pods: []world.PodSpec{{Shape: s.s}}})
 	}
